@@ -1420,7 +1420,71 @@ def gen_NpNames():
     write("NpNames", body, "the installed numpy (dir(numpy), probed like magpylib/_src/input_checks.py:check_format_pixel_agg does)")
 
 
-GENERATORS = {"AbsLen": gen_AbsLen, "KernTrace": gen_KernTrace, "StyleTemp": gen_StyleTemp, "Const": gen_Const, "Units": gen_Units, "SensorMesh": gen_SensorMesh, "Defaults": gen_Defaults, "StyleSchema": gen_StyleSchema, "Attr": gen_Attr, "PathPad": gen_PathPad, "Exits": gen_Exits, "Ndim": gen_Ndim, "Tol": gen_Tol, "CylSegGen": gen_CylSegGen, "ExcSync": gen_ExcSync, "InOut": gen_InOut, "WriteSet": gen_WriteSet, "Setters": gen_Setters, "NpNames": gen_NpNames}
+def gen_Handed():
+    """the handedness branch of getBH_level2: which literal selects it, which statements it holds (in-place scaling of one
+    component of the sensor's own pixel slice) and whether it comes after the back-rotation into the sensor frame"""
+    import ast
+    import inspect
+    import textwrap
+
+    from magpylib._src.fields import field_wrap_BH
+
+    tree = ast.parse(textwrap.dedent(inspect.getsource(field_wrap_BH.getBH_level2)))
+
+    def mentions(node, name):
+        return any(isinstance(n, ast.Attribute) and n.attr == name for n in ast.walk(node))
+
+    def num(node):
+        if isinstance(node, ast.UnaryOp) and isinstance(node.op, ast.USub):
+            return -num(node.operand)
+        if isinstance(node, ast.Constant) and isinstance(node.value, int) and not isinstance(node.value, bool):
+            return node.value
+        raise Refusal(f"handedness branch: not an integer literal: {ast.dump(node)}")
+
+    sites, others, after_rot = [], 0, True
+    for loop in ast.walk(tree):
+        if not isinstance(loop, (ast.For, ast.While)):
+            continue
+        for pos, st in enumerate(loop.body):
+            if not (isinstance(st, ast.If) and mentions(st.test, "handedness")):
+                continue
+            t = st.test
+            if not (isinstance(t, ast.Compare) and len(t.ops) == 1 and isinstance(t.ops[0], ast.Eq) and isinstance(t.comparators[0], ast.Constant)
+                    and isinstance(t.comparators[0].value, str) and mentions(t.left, "handedness")):
+                raise Refusal(f"handedness test has an unexpected form: {ast.unparse(t)}")
+            lit = t.comparators[0].value
+            if st.orelse:
+                others += len(st.orelse)
+            for b in st.body:
+                if (isinstance(b, ast.AugAssign) and isinstance(b.op, ast.Mult) and isinstance(b.target, ast.Subscript)
+                        and isinstance(b.target.value, ast.Name) and b.target.value.id == "B" and isinstance(b.target.slice, ast.Tuple)
+                        and isinstance(b.target.slice.elts[0], ast.Constant) and b.target.slice.elts[0].value is Ellipsis
+                        and isinstance(b.target.slice.elts[-2], ast.Name) and b.target.slice.elts[-2].id == "pix_slice"):
+                    sites.append((lit, num(b.target.slice.elts[-1]), num(b.value)))
+                else:
+                    others += 1
+            # every write of the rotated values into B (B[:, :, pix_slice] = ...) of this loop body must come before
+            for later in loop.body[pos + 1:]:
+                for n in ast.walk(later):
+                    if isinstance(n, (ast.Assign, ast.AugAssign)):
+                        tg = n.targets if isinstance(n, ast.Assign) else [n.target]
+                        if any(isinstance(x, ast.Subscript) and isinstance(x.value, ast.Name) and x.value.id == "B" for x in tg):
+                            after_rot = False
+    if not sites and not others:
+        raise Refusal("no handedness branch found in getBH_level2")
+    rows = ", ".join(f'("{l}", {a}, ({f} : Int))' for l, a, f in sites)
+    body = ("namespace MagpyVerif.Gen.Handed\n\n"
+            "/-- `if sens.handedness == <literal>: B[..., pix_slice, <axis>] *= <factor>` — every such statement of getBH_level2 -/\n"
+            f"def flipSites : List (String × Nat × Int) := [{rows}]\n\n"
+            "/-- statements under a handedness test that are NOT of that form (else branches included) -/\n"
+            f"def otherStmts : Nat := {others}\n\n"
+            "/-- no write into `B` follows the handedness branch inside the sensor loop (the flip acts on the rotated values) -/\n"
+            f"def flipAfterRotation : Bool := {'true' if after_rot else 'false'}\n\n"
+            "end MagpyVerif.Gen.Handed\n")
+    write("Handed", body, "magpylib/_src/fields/field_wrap_BH.py:getBH_level2 (AST)")
+
+
+GENERATORS = {"Handed": gen_Handed, "AbsLen": gen_AbsLen, "KernTrace": gen_KernTrace, "StyleTemp": gen_StyleTemp, "Const": gen_Const, "Units": gen_Units, "SensorMesh": gen_SensorMesh, "Defaults": gen_Defaults, "StyleSchema": gen_StyleSchema, "Attr": gen_Attr, "PathPad": gen_PathPad, "Exits": gen_Exits, "Ndim": gen_Ndim, "Tol": gen_Tol, "CylSegGen": gen_CylSegGen, "ExcSync": gen_ExcSync, "InOut": gen_InOut, "WriteSet": gen_WriteSet, "Setters": gen_Setters, "NpNames": gen_NpNames}
 
 
 def main():
